@@ -31,7 +31,7 @@ class C09(Prop):
                 "NV.C09.accept_serial_fresh", "NV.C09.applyAction_resolved", "NV.C09.pending_entry_older_than_any_accept",
                 "NV.C09.abandoned_suffix", "NV.C09.abandoned_nil_of_ok", "NV.C09.findConn_id",
                 "NV.C09.input_to_cleared_before_callback", "NV.C09.input_to_first_wins", "NV.C09.input_to_takes_the_line",
-                "NV.C09.no_prompt_while_input_to_pending", "NV.C09.sweep_keeps_invariant",
+                "NV.C09.no_prompt_while_input_to_pending", "NV.C09.prompt_revalidates", "NV.C09.sweep_keeps_invariant",
                 "NV.C09.failing_cleanup_loses_reset_state", "NV.C09.cleanup_restores_reset_state",
                 "NV.C09.judge_crash_clause", "NV.C09.judge_report_clause", "NV.C09.judge_exit_present", "NV.C09.judge_cycles_clause", "NV.C09.runFull_block",
                 "NV.C09.backend_total", "NV.C09.backend_total_prefix", "NV.C09.freed_conn_never_used_run",
@@ -56,7 +56,7 @@ class C09(Prop):
     level_text = ("PARTIAL (model level). Lean 4 theorem `backend_total` about the model `Backend` (nullable all_users, "
                   "connection records as serials, recovery points, error_handler flag protocol with the master handler ok / "
                   "raising / raising recursively, heart-beat bookkeeping, call_out sweep, reset + clean_up sweep with the "
-                  "walk restarted after an error, remove_interactive, input_to, re-validation after callbacks, batches of "
+                  "walk restarted after an error, remove_interactive, input_to, write_prompt, re-validation after callbacks, batches of "
                   "I/O events of one poll incl. stale entries and batches abandoned by a longjmp): for EVERY finite history of "
                   "external events (any number of accept / data / end-of-file / hang-up / console / timer events per poll, in "
                   "any order) x EVERY task oracle x both modes the run never reaches a modelled NULL dereference or use of "
@@ -84,14 +84,14 @@ class C09(Prop):
             "optional timer tick (2 s ... 1000 s, so that reset and clean_up sweeps happen); "
             "scripts inject ok / uncaught error / caught error / destruct (self, other user, other object) / call_out / "
             "heart-beat switch / master-handler switch / input_to into logon, process_input, command, input_to callback, "
-            "net_dead, heart_beat, call_out, reset, clean_up and connect; both modes; three master error_handler "
+            "write_prompt, net_dead, heart_beat, call_out, reset, clean_up and connect; both modes; three master error_handler "
             "behaviours; batch cases run on the sanitizer build AND on a plain build; a case is non-trivial when its "
             "trace has >= 2 task lines; distinct = distinct canonical implementation trace")
     not_covered = ["memory errors inside the failing task itself (C01) - only observed by ASan/UBSan on the generated runs",
                    "real signal delivery, the real 2 s timer thread (ticks are injected exactly as its callback does)",
                    "the same descriptor reported twice in one poll (data and end-of-file together), a console line behind "
                    "a failing accept in one poll (the doorbell is not rung again), write-ready events",
-                   "address-server pipe, LPC sockets, ed, snoop, exec(), get_char, the `!` escape, write_prompt apply, "
+                   "address-server pipe, LPC sockets, ed, snoop, exec(), get_char, the `!` escape, "
                    "input_to armed from net_dead / call_out / heart_beat (inherited command_giver)",
                    "an object destructed by its own reset() when its clean_up is due (the C code applies clean_up to it)",
                    "console on a real tty (reconnect path); the harness console is a pipe, where removal means shutdown",
@@ -464,6 +464,11 @@ class C09(Prop):
                               "script o3 reset cerr", "script o1 reset ok", "script o4 co:p w:x",
                               "step tick", "step tick:1000", "step conn:c1 tick:1000", "step send:c1:a/ tick:1000",
                               "step tick:1000", "step tick:5"])
+        # write_prompt(): unprotected apply after every served line; it raises, disconnects its user, arms an input_to
+        mk("write-prompt-hooks", ["mode net", "script u1 prompt err", "script u2 prompt dest:me", "script u3 prompt it:s",
+                                  "script u3 it:s w:got", "script u4 prompt cerr;dest:u1", "step conn:c1", "step conn:c2",
+                                  "step conn:c3", "step conn:c4", "step send:c1:a/b/ send:c2:a/b/ send:c3:a/b/c/ send:c4:a/",
+                                  "step send:c1:c/ tick"])
         mk("connect-rejected", ["mode net", "script k1 connect rej", "step conn:c1", "step conn:c2", "step send:c2:a/"])
         return B
 
@@ -549,11 +554,11 @@ class C09(Prop):
                         ops = ";".join("ok" if o in ("dest:me", "dest:o%d" % i) else o for o in ops.split(";"))
                     lines.append("script o%d %s %s" % (i, kind, ops))
         for u in range(1, nusers + 2):
-            for kind in ["logon", "input", "netdead", "hb", "co:p", "co:q", "it:s", "it:t"] + ["cmd:" + v for v in verbs]:
-                if rng.chance(density // 2 if kind in ("logon", "input") else density, 100):
+            for kind in ["logon", "input", "netdead", "hb", "co:p", "co:q", "it:s", "it:t", "prompt"] + ["cmd:" + v for v in verbs]:
+                if rng.chance(density // 2 if kind in ("logon", "input", "prompt") else density, 100):
                     # input_to() acts on command_giver: that is the user itself in logon, process_input, a command and
                     # an input_to callback (not in net_dead / call_out / heart_beat, where it is inherited)
-                    it_ok = kind in ("logon", "input", "it:s", "it:t") or kind.startswith("cmd:")
+                    it_ok = kind in ("logon", "input", "it:s", "it:t", "prompt") or kind.startswith("cmd:")
                     lines.append("script u%d %s %s" % (u, kind, self.gen_ops(rng, "u%d" % u, nusers, nobjs, allow_it=it_ok)))
         refused = set()
         for k in range(1, nusers + 3):
